@@ -383,7 +383,9 @@ def _judge_real(kind, n, returncode, stdout, logpath):
     return problems
 
 
-HELD_WATCHDOG = 20      # seconds; a normal python-hosted run takes < 1 s
+# seconds until a python-hosted handshake run kills itself (a normal one takes < 1 s).  The `held` runs are started
+# before and collected after the ~32 other runs, so a hanging one costs little wall time.
+HELD_WATCHDOG = {"held": 12, "ctrl": 60}
 
 
 def real_library_runs(ctx, only=None):
@@ -427,14 +429,14 @@ def real_library_runs(ctx, only=None):
         for rep in range(1 if ctx.quick else 3):
             log = os.path.join(d, "log-%s-%d.txt" % (mode, rep))
             held_jobs.append((mode, log, subprocess.Popen(
-                [build.PY, host, so, mode, "-", str(HELD_WATCHDOG)], env=envfor("handshake", log),
+                [build.PY, host, so, mode, "-", str(HELD_WATCHDOG[mode])], env=envfor("handshake", log),
                 stdout=subprocess.PIPE, stderr=subprocess.PIPE, text=True)))
 
     def collect_held():
         n = 0
         for mode, log, job in held_jobs:
             try:
-                out, err = job.communicate(timeout=HELD_WATCHDOG + 60)
+                out, err = job.communicate(timeout=HELD_WATCHDOG[mode] + 60)
             except subprocess.TimeoutExpired:
                 job.kill()
                 raise InfraError("python-hosted run ignored its watchdog alarm")
@@ -497,13 +499,16 @@ def signature(sc, clause, v):
 
 def run(ctx):
     scs = scenarios(ctx)
-    # development aid (never used by a registered command): --opt only=worlds|variants|base restricts the scenario
+    # development aid (never used by a registered command): --opt only=worlds|variants|base|new restricts the scenario
     # list, --opt noreal=1 skips the real-library runs; such a run says exhaustive=False.
     only = getattr(ctx, "opts", {}).get("only")
     noreal = bool(getattr(ctx, "opts", {}).get("noreal"))
     if only:
         keep = {"worlds": lambda sc: sc[4] != "" and sc[5] == "py312", "variants": lambda sc: sc[5] != "py312",
-                "base": lambda sc: sc[4] == "" and sc[5] == "py312"}[only]
+                "base": lambda sc: sc[4] == "" and sc[5] == "py312",
+                # everything the audit round added (worlds, variants, kinds M / C, ops g / h)
+                "new": lambda sc: (sc[4] != "" or sc[5] != "py312" or any(c in "MC" for c in sc[1][:sc[0]])
+                                   or any(c in "gh" for prog in sc[3] for c in prog))}[only]
         scs = [sc for sc in scs if keep(sc)]
     for variant in sorted(set(sc[5] for sc in scs)):
         _EXE[variant] = build_world(variant)
